@@ -522,7 +522,7 @@ func init() {
 			return map[string]any{"blocks": "<=4 exhaustive over 6 block shapes, plus large-section archives", "choice_strings": "all 2^n", "sources": len(c14Sources), "header_shapes": 10, "cross_product_blocks": "<=2",
 				"header_size_shapes": len(c14HeaderShapes(tier)), "header_size_shape_sequences": "4 fixed sequences of 0..3 blocks"}
 		},
-		Assumptions: []string{"refcar layout is correct", "a 'valid CAR' has a canonical DAG-CBOR header (a header go-car's lenient decoder accepts but re-encodes at another length is outside the property)",
+		Assumptions: []string{"resource policy is outside the statement: a reader that refuses a root CID longer than 2 KiB or a header body over 1 MiB at open is recorded (beyond-statement:open-refuses-oversize-header), as is a carv2.NewReader that refuses the harness's datareader source", "refcar layout is correct", "a 'valid CAR' has a canonical DAG-CBOR header (a header go-car's lenient decoder accepts but re-encodes at another length is outside the property)",
 			"SourceOffset is relative to where the archive starts in the source (the position at which the source was handed to NewBlockReader); for a seekable source handed over at a non-zero position the absolute position in that source is accepted as well",
 			"an index may record fewer offsets than the payload has copies of a block: Offset must be among the recorded ones only when there is one per copy",
 			"a root may be any CID go-cid reads back unchanged, including identity-multihash CIDs with digests of up to 2 MiB (codec raw; dag-json where raw cannot realise the length: 132 and 16389); the header stays below the default 32 MiB limit",
